@@ -165,6 +165,18 @@ func driveWork[C any, O any](t *testing.T, eng Engine[C, O], a *Args) {
 		out.SimNanos += res.SimNanos
 		out.Steps += int64(res.Steps)
 		if res.Violation != nil {
+			if k := findKnown(a.Known, a.Prop, res.Violation); k != nil {
+				// a listed finding: shrinking keeps (class, key), so only the first example is minimised
+				id := k.Class + " " + k.KeyRe
+				out.KnownHits[id]++
+				if _, ok := out.KnownEx[id]; !ok {
+					min, evals := Shrink(t, eng, sc, res.Violation, 300, 20*time.Second)
+					out.ShrinkEval += evals
+					b, _ := json.Marshal(min)
+					out.KnownEx[id] = string(b)
+				}
+				continue
+			}
 			min, evals := Shrink(t, eng, sc, res.Violation, 1500, 60*time.Second)
 			out.ShrinkEval += evals
 			if k := findKnown(a.Known, a.Prop, min.Violation); k != nil {
